@@ -52,6 +52,8 @@ def lock_hooks(m):
             return False
         return (n & 0xffff) <= (lt & 0xffff)
     h["bitcoin::relative::LockTime::is_implied_by"] = rel_implied
+    h["bitcoin::relative::LockTime::to_consensus_u32"] = lambda m_, a, c: rel_of(a[0])
+    h["bitcoin::relative::LockTime::to_sequence"] = lambda m_, a, c: rel_of(a[0])
     h["bitcoin::Sequence::to_relative_lock_time"] = \
         lambda m_, a, c: some(("rel", deref(a[0]))) if (deref(a[0]) & (1 << 31)) == 0 else NONE
     h["bitcoin::Sequence::enables_absolute_lock_time"] = lambda m_, a, c: deref(a[0]) != 0xffffffff
